@@ -51,6 +51,9 @@ type ValueCase struct {
 	// a name that already holds a value is written again, usually with a value of another kind: by the client
 	// through the locator before T1 is answered ("set"), as a declared result of T1 ("t1") or of T2 ("t2")
 	Over []overSpec `json:"over,omitempty"`
+	// an exclusive gateway behind T2 whose conditions read a data object that T1 stored ("w0" for even
+	// instances, "w1" for odd ones): every instance must be routed by its own data object
+	Gate bool `json:"gate,omitempty"`
 	env       *Env
 	defs      any
 	obs       []map[string]any // per instance: what was read
@@ -257,6 +260,7 @@ func canon16(v any) (typ string, val any) {
 
 func genC16(d *Draw) Case {
 	c := &ValueCase{Instances: 1 + d.N(3), Conc: d.N(4) != 0}
+	defer func() { c.Gate = d.Bool() }()
 	draw := func(n int) []valSpec {
 		var out []valSpec
 		for i := 0; i < n; i++ {
@@ -349,6 +353,9 @@ func (c *ValueCase) xml() string {
 	for i := range c.Objects {
 		fmt.Fprintf(&b, "        <olive:dataOutput name=\"o%d\" targetRef=\"o%d\"/>\n", i, i)
 	}
+	if c.Gate {
+		b.WriteString("        <olive:dataOutput name=\"who\" targetRef=\"who\"/>\n")
+	}
 	b.WriteString("      </bpmn:extensionElements>\n      <bpmn:incoming>F1</bpmn:incoming><bpmn:outgoing>F2</bpmn:outgoing>\n    </bpmn:serviceTask>\n")
 	b.WriteString("    <bpmn:serviceTask id=\"T2\">\n      <bpmn:extensionElements>\n")
 	if len(c.Headers) > 0 {
@@ -380,13 +387,30 @@ func (c *ValueCase) xml() string {
 		fmt.Fprintf(&b, "        <olive:dataInput name=\"in%d\" targetRef=\"o%d\"/>\n", i, i)
 	}
 	b.WriteString("      </bpmn:extensionElements>\n      <bpmn:incoming>F2</bpmn:incoming><bpmn:outgoing>F3</bpmn:outgoing>\n    </bpmn:serviceTask>\n")
-	b.WriteString("    <bpmn:endEvent id=\"End\"><bpmn:incoming>F3</bpmn:incoming></bpmn:endEvent>\n")
+	if c.Gate {
+		b.WriteString("    <bpmn:exclusiveGateway id=\"GX\" default=\"FD\"><bpmn:incoming>F3</bpmn:incoming><bpmn:outgoing>FA</bpmn:outgoing><bpmn:outgoing>FB</bpmn:outgoing><bpmn:outgoing>FD</bpmn:outgoing></bpmn:exclusiveGateway>\n")
+		for _, x := range []string{"A", "B", "D"} {
+			fmt.Fprintf(&b, "    <bpmn:serviceTask id=\"T%s\"><bpmn:incoming>F%s</bpmn:incoming><bpmn:outgoing>G%s</bpmn:outgoing></bpmn:serviceTask>\n", x, x, x)
+			fmt.Fprintf(&b, "    <bpmn:endEvent id=\"End%s\"><bpmn:incoming>G%s</bpmn:incoming></bpmn:endEvent>\n", x, x)
+			fmt.Fprintf(&b, "    <bpmn:sequenceFlow id=\"G%s\" sourceRef=\"T%s\" targetRef=\"End%s\"/>\n", x, x, x)
+		}
+		b.WriteString("    <bpmn:sequenceFlow id=\"FA\" sourceRef=\"GX\" targetRef=\"TA\"><bpmn:conditionExpression xsi:type=\"bpmn:tFormalExpression\">getDataObject(&#34;who&#34;) == &#34;w0&#34;</bpmn:conditionExpression></bpmn:sequenceFlow>\n")
+		b.WriteString("    <bpmn:sequenceFlow id=\"FB\" sourceRef=\"GX\" targetRef=\"TB\"><bpmn:conditionExpression xsi:type=\"bpmn:tFormalExpression\">getDataObject(&#34;who&#34;) == &#34;w1&#34;</bpmn:conditionExpression></bpmn:sequenceFlow>\n")
+		b.WriteString("    <bpmn:sequenceFlow id=\"FD\" sourceRef=\"GX\" targetRef=\"TD\"/>\n")
+		b.WriteString("    <bpmn:dataObject id=\"who\" name=\"who\"/>\n")
+	} else {
+		b.WriteString("    <bpmn:endEvent id=\"End\"><bpmn:incoming>F3</bpmn:incoming></bpmn:endEvent>\n")
+	}
 	for i := range c.Objects {
 		fmt.Fprintf(&b, "    <bpmn:dataObject id=\"o%d\" name=\"o%d\"/>\n", i, i)
 	}
 	b.WriteString("    <bpmn:sequenceFlow id=\"F1\" sourceRef=\"Start\" targetRef=\"T1\"/>\n")
 	b.WriteString("    <bpmn:sequenceFlow id=\"F2\" sourceRef=\"T1\" targetRef=\"T2\"/>\n")
-	b.WriteString("    <bpmn:sequenceFlow id=\"F3\" sourceRef=\"T2\" targetRef=\"End\"/>\n")
+	if c.Gate {
+		b.WriteString("    <bpmn:sequenceFlow id=\"F3\" sourceRef=\"T2\" targetRef=\"GX\"/>\n")
+	} else {
+		b.WriteString("    <bpmn:sequenceFlow id=\"F3\" sourceRef=\"T2\" targetRef=\"End\"/>\n")
+	}
 	b.WriteString("  </bpmn:process>\n</bpmn:definitions>\n")
 	return b.String()
 }
@@ -463,6 +487,9 @@ func (c *ValueCase) Main() {
 					for k, s := range c.Objects {
 						objs[fmt.Sprintf("o%d", k)] = mkValue(s, i)
 					}
+					if c.Gate {
+						objs["who"] = fmt.Sprintf("w%d", i%2)
+					}
 					for _, o := range c.Over {
 						switch o.Via {
 						case "set":
@@ -497,6 +524,12 @@ func (c *ValueCase) Main() {
 						}
 					}
 					t.Do(bpmn.DoWithResults(res))
+				case "TA", "TB", "TD":
+					if prev, ok := obs["branch"].(string); ok {
+						aid = prev + "+" + aid
+					}
+					obs["branch"] = aid
+					t.Do()
 				}
 			case bpmn.ErrorTrace:
 				L.AddG(i, "t:error", fmt.Sprintf("%T", t.Error), fmt.Sprint(t.Error), 0)
@@ -624,6 +657,16 @@ func checkC16(cc Case, r *simrt.Result) *Outcome {
 				}
 			}
 		}
+		if c.Gate {
+			want := []string{"TA", "TB"}[i%2]
+			if got, _ := obs["branch"].(string); got != want {
+				clause := "C16/value-changed"
+				if got == []string{"TB", "TA"}[i%2] {
+					clause = "C16/not-isolated"
+				}
+				vl.add(clause, "instance %d stored %q in its data object 'who' and the gateway that reads it sent its token to %q, want %s (instances: %d, concurrent: %v)", i, fmt.Sprintf("w%d", i%2), got, want, c.Instances, c.Conc)
+			}
+		}
 		atStart, _ := obs["vars-at-start"].(map[string]any)
 		atEnd, _ := obs["vars-at-end"].(map[string]any)
 		props, _ := obs["props"].(map[string]any)
@@ -655,6 +698,8 @@ func checkC16(cc Case, r *simrt.Result) *Outcome {
 	o.Viol = vl.v
 	o.Nontrivial = r.Switches > 0
 	probe(o, "several-instances-at-once", c.Instances > 1 && c.Conc)
+	probe(o, "gateway-reads-each-instance's-data-object", c.Gate)
+	probe(o, "gateway-reads-data-object-several-instances-at-once", c.Gate && c.Instances > 1 && c.Conc)
 	for _, ov := range c.Over {
 		prev, _ := c.specAt(ov.Name, map[string]int{"set": 0, "t1": 0, "t2": 1}[ov.Via])
 		pt, _ := canon16(mkValue(prev, 0))
@@ -677,7 +722,7 @@ func checkC16(cc Case, r *simrt.Result) *Outcome {
 			break
 		}
 	}
-	o.Sample = map[string]any{"over": c.Over, "instances": c.Instances, "conc": c.Conc, "vars": c.Vars, "results": c.Results, "objects": c.Objects, "props": c.Props}
+	o.Sample = map[string]any{"gate": c.Gate, "over": c.Over, "instances": c.Instances, "conc": c.Conc, "vars": c.Vars, "results": c.Results, "objects": c.Objects, "props": c.Props}
 	return o
 }
 
